@@ -32,6 +32,10 @@ SCRIPTS = {
     'bulk_noindex_then_reindex': [('add_nodes', [1, 2, 3]), ('add_edges', [(1, 2), (2, 3)], True), ('reindex_edges',)],
     'bulk_noindex_last': [('add_nodes', [1, 2, 3]), ('add_edge', 3, 1), ('add_edges', [(1, 2), (2, 3)], True)],
     'deferred_commit_by_later_insert': [('add_node_nc', 1), ('add_node_nc', 2), ('add_edge_nc', 1, 2), ('add_node', 3), ('add_edge', 2, 3)],
+    # every kind of write as the LAST one before the map is closed (nothing later commits on its behalf)
+    'bulk_nodes_last': [('add_node', 1), ('add_node', 2), ('add_edge', 1, 2), ('add_nodes', [3])],
+    'node_last': [('add_nodes', [1, 2]), ('add_edges', [(1, 2)], False), ('add_node', 3)],
+    'reindex_nodes_last': [('add_node_nc', 1), ('add_node_nc', 2), ('add_node_nc', 3), ('add_edge_nc', 1, 2), ('commit',), ('reindex_edges',), ('reindex_nodes',)],
     'ignore_double': [('add_node', 1), ('add_node', 2), ('add_node_ignore', 1), ('add_edge', 1, 2), ('add_node', 3)],
 }
 
@@ -231,7 +235,7 @@ def run_pickle(inst):
 
 def instances(tier):
     out = [('pickle', False), ('pickle', True)]
-    names = list(SCRIPTS) if tier == 'thorough' else ['single', 'bulk', 'deferred', 'bulk_noindex_last', 'deferred_commit_by_later_insert', 'mixed']
+    names = list(SCRIPTS) if tier == 'thorough' else ['single', 'bulk', 'deferred', 'bulk_noindex_last', 'deferred_commit_by_later_insert', 'mixed', 'bulk_nodes_last', 'node_last']
     for s in names:
         for latlon in (False, True):
             for cycles in ((1, 2) if tier == 'thorough' or s in ('single', 'bulk') else (1,)):
@@ -253,7 +257,7 @@ def main(tier):
     from symx.common import fit_budget
     budget = fit_budget(len(instances(tier)), tier, 100, 100)
     res = run_instances(run_instance, [(i[:4] + (budget,) + i[5:]) if i[0] == 'sqlite' else i for i in instances(tier)])
-    rep.bounds = dict(map="3 integer-labelled nodes with symbolic coordinates, up to 3 directed edges", scripts=sorted(SCRIPTS) if tier == 'thorough' else "6 of the build scripts",
+    rep.bounds = dict(map="3 integer-labelled nodes with symbolic coordinates, up to 3 directed edges", scripts=sorted(SCRIPTS) if tier == 'thorough' else "8 of the build scripts",
                       flag="use_latlon False and True (spatial queries compared in the planar case; lat-lon with opaque trigonometry)",
                       cycles="1-2 reopen cycles", query="symbolic location and radius")
     rep.outside = ["rounding", "pyproj projections (not installed)", "rtree-indexed InMemMap files (rtree not installed)", "more than 3 nodes"]
